@@ -44,7 +44,6 @@ def classify4 (cfg : Cfg) (p p1 p2 : Program) (_edb : DB) (parts : List String) 
   else if queryRel p != answeredRel p || queryRel p1 != answeredRel p1 || queryRel p2 != answeredRel p2 then
     "last_rule_head_not_last_head"
   else if parts.getD 4 "" != "1" && cfg.ms then "magic_seed_in_input_tuples"
-  else if [p, p1, p2].any (unionWithJoinUnderJoinPlanning cfg) then "union_with_join_under_join_planning"
   else if [p, p1, p2].any (lastHeadMultiClauseWithSip cfg) then "last_head_multi_clause_with_sip"
   else if [p, p1, p2].any (repeatedVarUnderJoinPlanning cfg) then "repeated_var_in_scan_under_join_planning"
   else "unclassified"
